@@ -29,6 +29,10 @@ type cfsCtl struct {
 	dead    bool        // an operation did not return: the history ends
 }
 
+// cfsDeadCases counts histories that ended in a deadlock; after a few the stage stops generating
+// (every one of them costs the watchdog's deadline and leaks its blocked goroutines).
+var cfsDeadCases int
+
 func cfsBytes(b []byte) string { return `(B "` + hex.EncodeToString(b) + `")` }
 
 func newCfsCtl(t *testing.T, r *vRand, mb int, gated bool, initTxt string, initBlocks [][]byte) *cfsCtl {
@@ -62,7 +66,12 @@ func (c *cfsCtl) settle() {
 			return
 		}
 		if time.Now().After(deadline) {
-			c.t.Fatalf("settle: %d extra goroutines, %d waiting in PutB", n, w)
+			// goroutines that neither finish nor reach the fake Keep: recorded as an observation no model explains
+			c.events = append(c.events, `EOp (OStat "STUCK: background goroutines neither finish nor reach Keep") (VUnit)`)
+			c.desc = append(c.desc, fmt.Sprintf("STUCK: %d extra goroutines, %d waiting in PutB after 10 s", n, w))
+			c.se.tag("stuck")
+			c.dead = true
+			return
 		}
 		runtime.Gosched()
 		time.Sleep(20 * time.Microsecond)
@@ -79,7 +88,7 @@ func (c *cfsCtl) runOp(f func()) {
 	done := make(chan struct{})
 	go func() { defer close(done); f() }()
 	var deferred [][]byte
-	deadline := time.Now().Add(30 * time.Second)
+	deadline := time.Now().Add(10 * time.Second)
 	stable, lastN, lastW := 0, -1, -1
 	for {
 		select {
@@ -111,7 +120,7 @@ func (c *cfsCtl) runOp(f func()) {
 		lastN, lastW = n, w
 		if time.Now().After(deadline) {
 			c.events = append(c.events, `EOp (OStat "DEADLOCK: the previous call did not return") (VUnit)`)
-			c.desc = append(c.desc, fmt.Sprintf("DEADLOCK: call did not return within 30 s (%d goroutines, %d parked in PutB)", n+1, w))
+			c.desc = append(c.desc, fmt.Sprintf("DEADLOCK: call did not return within 10 s (%d goroutines, %d parked in PutB)", n+1, w))
 			c.se.tag("deadlock")
 			if os.Getenv("VERIF_DEBUG") != "" {
 				buf := make([]byte, 1<<20)
@@ -151,6 +160,9 @@ func (c *cfsCtl) completeOne() {
 }
 
 func (c *cfsCtl) completeData(d []byte) {
+	if c.dead {
+		return
+	}
 	n := c.kc.releaseData(d)
 	c.settle()
 	c.events = append(c.events, "ECompleteData "+cfsBytes(d))
@@ -159,7 +171,7 @@ func (c *cfsCtl) completeData(d []byte) {
 }
 
 func (c *cfsCtl) completeAll() {
-	for c.kc.nwaiting() > 0 {
+	for !c.dead && c.kc.nwaiting() > 0 {
 		c.kc.mtx.Lock()
 		d := c.kc.waiting[0].data
 		c.kc.mtx.Unlock()
@@ -168,6 +180,9 @@ func (c *cfsCtl) completeAll() {
 }
 
 func (c *cfsCtl) setMode(m int) {
+	if c.dead {
+		return
+	}
 	c.kc.mtx.Lock()
 	c.kc.mode = m
 	c.kc.mtx.Unlock()
